@@ -1,9 +1,16 @@
 import RichModel.Lemmas.Ratio
+import RichModel.Lemmas.TableRender
+import RichModel.Lemmas.TableWidths
+import RichModel.Gen.CellWidths
+import RichModel.Gen.TableBoxes
 /-!
 # C07 — tables are rectangles that show every cell in its own column
 
-This file: the arithmetic core ("ratio_distribute / ratio_reduce split integers so that the parts sum
-to the total", `_collapse_widths`).  The table renderer's theorems are added below by the layout layer.
+First the arithmetic core ("ratio_distribute / ratio_reduce split integers so that the parts sum to the
+total", `_collapse_widths`), then the table itself (`Model/Table.lean`, cells as oracles — see
+`Model/TABLE_API.md`): rectangle, exact expansion, fitting the available width, row order, every cell inside
+its column's span.  `Flags.today` is rich 9.10.0 as it stands; the full-strength theorems are proved for the
+repaired variants and `old_…` witnesses show today's code violating them at a concrete table.
 -/
 namespace RichModel.C07
 open RichModel
@@ -61,5 +68,328 @@ theorem collapse_widths_fit_when_all_wrappable (widths : List Int) (wrapable : L
 example : ratioDistribute 10 [1, 2, 0] none = some [4, 6, 0] := by decide
 example : ratioReduce 50 [1, 1] [100, 1] [100, 1] = [75, 0] := by decide   -- only 26 of 50 taken
 example : collapseWidths [10, 20, 5] [true, true, false] 20 = [8, 7, 5] := by decide
+
+/-! ## The table -/
+
+/-- `get_character_cell_size` at the table translated from `rich/_cell_widths.py` on this run. -/
+def cw : Char → Nat := charWidthT Gen.cellWidths
+
+theorem cellWidths_sortedDisjoint : adjSorted Gen.cellWidths.toList = true := by decide +kernel
+theorem cellWidths_small : widthsSmall Gen.cellWidths.toList = true := by decide +kernel
+
+theorem charWidth_le_two (c : Char) : cw c ≤ 2 := by
+  unfold cw charWidthT
+  simp only
+  split
+  · omega
+  · rw [codepointWidth_eq_linear _ cellWidths_sortedDisjoint]; exact linearScan_le_two _ cellWidths_small _
+
+theorem charWidth_space : cw ' ' = 1 := by decide
+
+/-- Executable form of "every box literal of rich/box.py is 8 lines of 4 characters, each one cell wide". -/
+def boxesOk : Bool :=
+  Gen.tableBoxes.all (fun e => match Box.ofLines? e.2.2 with
+    | some b => decide (b.wf cw)
+    | none => false)
+
+/-- Side condition on the *generated* box table (re-proved on every run against rich/box.py as it is now). -/
+theorem boxes_wellformed : boxesOk = true := by decide +kernel
+
+/-- …so every box constant of rich/box.py parses (`Box.__init__` does not raise) into a box all of whose
+characters occupy exactly one cell. -/
+theorem boxes_all_wf : ∀ e ∈ Gen.tableBoxes, ∃ b, Box.ofLines? e.2.2 = some b ∧ b.wf cw := by
+  intro e he
+  have h := boxes_wellformed
+  unfold boxesOk at h
+  rw [List.all_eq_true] at h
+  have := h e he
+  split at this
+  · rename_i b hb; exact ⟨b, hb, of_decide_eq_true this⟩
+  · cases this
+
+/-- With at least one column the rectangle's width is `_extra_width` plus the column widths. -/
+theorem bodyWidth_eq (t : Table) (widths : List Nat) (hlen : widths.length = t.columns.length) (hne : t.columns ≠ []) :
+    (t.bodyWidth widths : Int) = t.extraWidth + (widths.sum : Int) := by
+  have hn : 1 ≤ t.columns.length := by
+    cases h : t.columns with
+    | nil => exact absurd h hne
+    | cons _ _ => simp
+  unfold Table.bodyWidth lineWidth Table.edged Table.sepLen Table.extraWidth
+  rw [hlen]
+  cases t.box.isSome <;> cases t.showEdge <;> simp <;> omega
+
+/-- **table_rect.**  Every line of the rendered table body — top and bottom edge, head/foot/row/blank
+separators, every line of every row — has the same cell width: the edge characters, one divider between
+neighbouring columns and the column widths, i.e. `_extra_width + Σ widths`.  For every table (any number of
+columns and rows, every option), every box whose characters are one cell wide, every width vector with one
+entry per column and arbitrary cell oracles.  (`leading` repaired to one separator line per unit; see
+`old_table_rect_fails`.) -/
+theorem table_rect (fl : Flags) (hfl : fl.leadingRepeat = false) (t : Table) (hwf : ∀ b, t.box = some b → b.wf cw)
+    (widths : List Nat) (hlen : widths.length = t.columns.length) :
+    ∀ l ∈ t.renderBody fl cw widths, cellLen cw l.text = t.bodyWidth widths :=
+  fun l hl => (renderBody_good cw charWidth_space charWidth_le_two fl hfl t hwf widths hlen l hl).text_width
+
+/-- The same through `Table.__rich_console__`: whatever widths `_calculate_column_widths` returned (one per
+column, none negative), every body line is `_extra_width + Σ widths` cells wide. -/
+theorem table_render_rect (fl : Flags) (hfl : fl.leadingRepeat = false) (t : Table) (hwf : ∀ b, t.box = some b → b.wf cw)
+    (hne : t.columns ≠ []) (avail : Int) (r : Rendered) (hr : t.render fl cw avail = some r)
+    (hlen : r.widths.length = t.columns.length) (hnn : ∀ w ∈ r.widths, 0 ≤ w) :
+    ∀ l ∈ r.body, (cellLen cw l.text : Int) = t.extraWidth + r.widths.sum := by
+  unfold Table.render at hr
+  simp only at hr
+  split at hr
+  · cases hr
+  · rename_i ws hws
+    simp only [Option.some.injEq] at hr
+    subst hr
+    simp only at hlen hnn ⊢
+    intro l hl
+    have hl' : (ws.map Int.toNat).length = t.columns.length := by simpa using hlen
+    rw [table_rect fl hfl t hwf _ hl' l hl, bodyWidth_eq t _ hl' hne]
+    have : ((ws.map Int.toNat).sum : Int) = ws.sum := by
+      clear hws hlen hl hl'
+      induction ws with
+      | nil => rfl
+      | cons x xs ih =>
+        have hx := hnn x (by simp)
+        simp only [List.map_cons, List.sum_cons, Int.natCast_add, ih (fun w hw => hnn w (List.mem_cons_of_mem _ hw))]
+        omega
+    rw [this]
+
+/-! Witness for F16 (`leading ≥ 2` with a box): today's `_render` emits `get_row(widths, "mid") * leading`
+as ONE line, `leading` times too wide. -/
+
+def wBox : Box :=
+  { top := ⟨'+', '-', '+', '+'⟩, head := ⟨'|', ' ', '|', '|'⟩, headRow := ⟨'+', '=', '+', '+'⟩, mid := ⟨'|', ' ', '|', '|'⟩,
+    row := ⟨'+', '-', '+', '+'⟩, footRow := ⟨'+', '-', '+', '+'⟩, foot := ⟨'|', ' ', '|', '|'⟩, bottom := ⟨'+', '-', '+', '+'⟩ }
+
+/-- A text-like cell oracle: natural width `|s|`, one line padded (or cut) to the width offered. -/
+def wCell (s : List Char) : Cell :=
+  { measure := fun w => ⟨min s.length w, min s.length w⟩, renderLines := fun w => [(s ++ List.replicate (w - s.length) ' ').take w] }
+
+def wTable : Table :=
+  { columns := [{ header := wCell ['a'], footer := wCell [], cells := [wCell ['1'], wCell ['2']] },
+                { header := wCell ['b', 'b'], footer := wCell [], cells := [wCell ['3'], wCell ['4', '5', '6']] }],
+    rowEndSection := [false, false], box := some wBox, leading := 2, padding := (0, 0, 0, 0) }
+
+/-- Today's code: the separator between the two rows is 14 cells wide in a 7-cell table. -/
+theorem old_table_rect_fails :
+    ∃ l ∈ wTable.renderBody Flags.today (fun _ => 1) [1, 3], cellLen (fun _ => 1) l.text ≠ wTable.bodyWidth [1, 3] := by decide
+
+/-- The repaired code on the same table: every line 7 cells wide, two separate blank separator lines. -/
+example : (wTable.renderBody Flags.repaired (fun _ => 1) [1, 3]).map (fun l => String.ofList l.text) =
+    ["+-+---+", "|a|bb |", "+=+===+", "|1|3  |", "| |   |", "| |   |", "|2|456|", "+-+---+"] := by decide
+
+/-! ### rows and columns -/
+
+/-- **rows_in_order.**  Reading the body top to bottom and keeping only the lines that carry cells gives:
+all lines `0 … h₀-1` of row 0, then all lines of row 1, … — the rows in the order `zip(*columns)` yields them,
+each on lines of its own (a line belongs to exactly one row or is a separator), each row at least one line
+high.  For every table, every option, every width vector, today's code and repaired alike. -/
+theorem rows_in_order (fl : Flags) (t : Table) (widths : List Nat) :
+    (t.renderBody fl cw widths).filterMap BodyLine.cellTag
+      = t.rows.zipIdx.flatMap (fun ri => (List.range (shapeRow cw widths ri.1).1).map (fun k => (ri.2, k)))
+    ∧ ∀ row, 1 ≤ (shapeRow cw widths row).1 :=
+  ⟨renderBody_tags fl cw t widths, fun _ => (rowHeight_ge _).1⟩
+
+/-- …and those rows are: the header (if shown), the rows in INSERTION order, the footer (if shown) — for every
+table whose columns hold the same number of cells (any table built with `add_row`). -/
+theorem rows_header_cells_footer (t : Table) (m : Nat) (hne : t.columns ≠ []) (hrect : ∀ c ∈ t.columns, c.cells.length = m) :
+    t.rows = (if t.showHeader then [t.columns.map (·.header)] else [])
+      ++ (List.range m).map (fun r => t.columns.map (fun c => c.cells.getD r default))
+      ++ (if t.showFooter then [t.columns.map (·.footer)] else []) :=
+  rows_rectangular t m hne hrect
+
+/-- **fold_cells_in_column.**  Take any body line that carries cells, say line `k` of row `i`, and any column
+`j`.  The line splits as `pre ++ part ++ post` where `pre` is exactly `colOffset j` cells wide (left edge,
+the earlier columns, one divider each), `part` is exactly `widths[j]` cells wide, and `part` IS line `k` of
+what cell `(i, j)` rendered at the column's width — verbatim, every character in order — or blank padding
+when that cell has fewer than `k+1` lines.  So the characters of a cell appear inside its column's span of
+cells and nowhere else on the line.  (The oracle hypothesis `hexact` is what `render_lines` guarantees; C13.) -/
+theorem fold_cells_in_column (fl : Flags) (t : Table) (hwf : ∀ b, t.box = some b → b.wf cw) (widths : List Nat)
+    (hlen : widths.length = t.columns.length) (l : BodyLine) (i k : Nat)
+    (hl : l ∈ t.renderBody fl cw widths) (htag : l.cellTag = some (i, k)) (j : Nat) (hj : j < widths.length) :
+    ∃ (row : List Cell) (hrow : j < row.length), t.rows[i]? = some row ∧ k < (shapeRow cw widths row).1 ∧
+      ∃ pre part post, l.text = pre ++ part ++ post ∧ cellLen cw pre = t.colOffset widths j ∧ cellLen cw part = widths[j] ∧
+        ((∀ x ∈ row[j].renderLines widths[j], cellLen cw x = widths[j]) →
+          part = if h : k < (row[j].renderLines widths[j]).length then (row[j].renderLines widths[j])[k]
+                 else List.replicate widths[j] ' ') := by
+  obtain ⟨row, hrow, hk, rfl⟩ := renderBody_cell_line fl cw t widths l i k hl htag
+  have hrl : row.length = widths.length := by
+    have := zipRows_row_length _ row (List.mem_of_getElem? hrow)
+    simpa [hlen] using this
+  obtain ⟨hjp, pre, post, h1, h2, h3, h4⟩ :=
+    cellLine_column cw charWidth_space charWidth_le_two t hwf widths (i == 0) (i + 1 == t.rows.length) i row hrl k hk j hj
+  refine ⟨row, by omega, hrow, hk, pre, _, post, h1, h2, h3, ?_⟩
+  intro hexact
+  have hg := shapeRow_getElem cw widths row hrl j hj
+  have : (t.cellLine cw widths (i == 0) (i + 1 == t.rows.length) i row k).parts[j]
+      = (shapeCell cw widths[j] (shapeRow cw widths row).1 (row[j].renderLines widths[j])).getD k [] := by
+    have hj2 : j < ((shapeRow cw widths row).2.map (fun c => c.getD k [])).length := by rw [← h4]; exact hjp
+    have : (t.cellLine cw widths (i == 0) (i + 1 == t.rows.length) i row k).parts[j]
+        = ((shapeRow cw widths row).2.map (fun c => c.getD k []))[j] := by simp only [h4]
+    rw [this, List.getElem_map]
+    have hj3 : j < (shapeRow cw widths row).2.length := by simpa using hj2
+    rw [List.getElem?_eq_getElem hj3] at hg
+    simp only [Option.some.injEq] at hg
+    rw [hg]
+  rw [this]
+  exact shapeCell_getD cw widths[j] _ _ hexact k hk
+
+/-- Every rendered line of every cell is shown: line `k` of cell `(i, j)` is on body line `(i, k)`. -/
+theorem every_cell_line_shown (fl : Flags) (t : Table) (widths : List Nat) (hlen : widths.length = t.columns.length)
+    (i : Nat) (row : List Cell) (hrow : t.rows[i]? = some row) (j : Nat) (hj : j < widths.length) (hjr : j < row.length)
+    (k : Nat) (hk : k < (row[j].renderLines widths[j]).length) :
+    (i, k) ∈ (t.renderBody fl cw widths).filterMap BodyLine.cellTag := by
+  have hrl : row.length = widths.length := by
+    have := zipRows_row_length _ row (List.mem_of_getElem? hrow)
+    simpa [hlen] using this
+  rw [renderBody_tags]
+  simp only [List.mem_flatMap, List.mem_map, List.mem_range]
+  refine ⟨(row, i), List.mem_zipIdx_iff_getElem?.2 (by simpa using hrow), k, ?_, rfl⟩
+  have := cell_height_le cw widths row hrl j hj
+  simp only at this ⊢
+  omega
+
+/-! ### column widths -/
+
+/-- **table_expand_exact.**  An expanding table (`expand=True` or an explicit `width`) whose columns fit the
+width on offer at their natural widths is padded to EXACTLY that width: `Σ widths = max_width`, one width
+per column, no column narrower than its natural width.  Any columns (fixed, capped, ratio), any cells.
+(With the pad target repaired, or without a table `min_width`; see `old_expand_exact_fails`.) -/
+theorem table_expand_exact (fl : Flags) (t : Table) (maxWidth : Int) (ws0 : List Int) (hexp : t.expand = true)
+    (hfl : fl.minWidthCapsExpand = false ∨ t.minWidth = none)
+    (h0 : t.firstWidths maxWidth = some ws0) (hne : ws0 ≠ []) (hpos : ∀ w ∈ ws0, 1 ≤ w) (hfit : ws0.sum ≤ maxWidth) :
+    ∃ ws, t.calcWidths fl maxWidth = some ws ∧ ws.sum = maxWidth ∧ ws.length = ws0.length ∧ ∀ p ∈ ws0.zip ws, p.1 ≤ p.2 := by
+  unfold Table.calcWidths
+  rw [h0]
+  simp only [show ¬ (ws0.sum > maxWidth) by omega, if_false]
+  obtain ⟨r, h1, h2, h3, h4⟩ := padWidths_spec fl t ws0 ws0.sum maxWidth hne hpos
+  refine ⟨r, h1, ?_, h2, h4⟩
+  rw [h3, padTarget_expand fl t maxWidth hexp hfl]
+  split
+  · omega
+  · rename_i hc
+    unfold Table.padCond at hc
+    simp only [hexp, Bool.and_true, Bool.or_eq_true, decide_eq_true_eq, not_or] at hc
+    omega
+
+/-- The same from hypotheses about the cells only: no active ratio column, every column free (no `width`, no
+`min_width`, cells measuring ≥ 0 as `Measurement.get` guarantees).  If the natural widths fit, the
+expanding table is exactly as wide as asked. -/
+theorem table_expand_exact_free (fl : Flags) (t : Table) (maxWidth : Int) (hexp : t.expand = true)
+    (hfl : fl.minWidthCapsExpand = false ∨ t.minWidth = none) (hnr : t.NoRatio) (hfree : t.AllFree) (hne : t.columns ≠ [])
+    (hfit : (t.indexed.map (fun ci => orOne (t.measureColumn ci.2 ci.1 maxWidth).maximum)).sum ≤ maxWidth) :
+    ∃ ws, t.calcWidths fl maxWidth = some ws ∧ ws.sum = maxWidth ∧ ws.length = t.columns.length := by
+  obtain ⟨ws0, h0, hl, hp⟩ := firstWidths_free t hnr hfree maxWidth
+  have h0' := firstWidths_noRatio t hnr maxWidth
+  rw [h0] at h0'
+  simp only [Option.some.injEq] at h0'
+  have hne0 : ws0 ≠ [] := by
+    intro h; rw [h] at hl; simp at hl
+    exact hne (List.eq_nil_of_length_eq_zero hl.symm)
+  obtain ⟨ws, h1, h2, h3, _⟩ := table_expand_exact fl t maxWidth ws0 hexp hfl h0 hne0 hp (by rw [h0']; exact hfit)
+  exact ⟨ws, h1, h2, by omega⟩
+
+/-- Witness: today `Table(expand=True, min_width=…)` with a small `min_width` does NOT expand — the pad target
+is `min(min_width - extra, max_width)`, below the natural width, so nothing is handed out. -/
+def wTableMin : Table :=
+  { columns := [{ header := wCell ['a', 'b', 'c'], footer := wCell [], cells := [wCell ['1']] }],
+    rowEndSection := [false], box := none, expandFlag := true, minWidth := some 2, padding := (0, 0, 0, 0) }
+
+theorem old_expand_exact_fails : wTableMin.calcWidths Flags.today 10 = some [3] := by decide
+example : wTableMin.calcWidths Flags.repaired 10 = some [10] := by decide
+
+/-- **table_expand_exact (after collapsing).**  When the natural widths do NOT fit and every column may
+wrap, the collapsed widths sum to exactly `max_width`; if re-measuring the columns at those widths gives the
+same widths back (true of text cells: a cell that was cut to `w` measures `w` at `w`), the table — expanding
+or not, today's code or repaired — is exactly `max_width` wide. -/
+theorem table_exact_collapsed (fl : Flags) (t : Table) (maxWidth : Int) (hnr : t.NoRatio) (hfree : t.AllFree)
+    (hne : t.columns ≠ []) (hnw : ∀ c ∈ t.columns, c.noWrap = false) (hmw : 0 ≤ maxWidth)
+    (hover : maxWidth < (t.indexed.map (fun ci => orOne (t.measureColumn ci.2 ci.1 maxWidth).maximum)).sum)
+    (hstable : ∀ ws0, t.firstWidths maxWidth = some ws0 →
+      t.remeasure (collapseWidths ws0 t.wrapable maxWidth) = collapseWidths ws0 t.wrapable maxWidth) :
+    ∃ ws, t.calcWidths fl maxWidth = some ws ∧ ws.sum = maxWidth ∧ ws.length = t.columns.length := by
+  obtain ⟨ws0, h0, hl, hp⟩ := firstWidths_free t hnr hfree maxWidth
+  have h0' := firstWidths_noRatio t hnr maxWidth
+  rw [h0] at h0'
+  simp only [Option.some.injEq] at h0'
+  have hwrap : ∀ c ∈ t.columns, c.width = none ∧ c.noWrap = false := by
+    intro c hc
+    obtain ⟨i, hi, rfl⟩ := List.getElem_of_mem hc
+    have : (t.columns[i], i) ∈ t.indexed := by
+      unfold Table.indexed; exact List.mem_zipIdx_iff_getElem?.2 (by simp [hi])
+    exact ⟨(hfree _ this).1, hnw _ (List.getElem_mem _)⟩
+  have hover' : maxWidth < ws0.sum := by rw [h0']; exact hover
+  obtain ⟨hsw, hsum, hrl, _⟩ := shrinkWidths_all_wrappable t maxWidth ws0 hl (fun w hw => by have := hp w hw; omega) hover' hmw hwrap
+  have hst := hstable ws0 h0
+  unfold Table.calcWidths
+  rw [h0]
+  simp only [show ws0.sum > maxWidth by omega, if_true, hsw, hst]
+  have hr1 : ∀ w ∈ collapseWidths ws0 t.wrapable maxWidth, 1 ≤ w := by
+    rw [← hst]; exact remeasure_pos t hfree _
+  have hrne : collapseWidths ws0 t.wrapable maxWidth ≠ [] := by
+    intro h; rw [h] at hrl; simp at hrl
+    exact hne (List.eq_nil_of_length_eq_zero hrl.symm)
+  obtain ⟨r, h1, h2, h3, _⟩ := padWidths_spec fl t _ maxWidth maxWidth hrne hr1
+  refine ⟨r, h1, ?_, by omega⟩
+  rw [h3, hsum]
+  have := padTarget_le fl t maxWidth
+  split <;> omega
+
+/-- **width_fits** (partial: the hypothesis `hkeep` — collapsing leaves every column at least one cell —
+is what "available width ≥ structural minimum" buys; it is not yet derived from `columns.length ≤ max_width`).
+Full statement: `t.NoRatio → t.AllFree → columns ≠ [] → (∀ c, ¬no_wrap) → columns.length ≤ max_width →
+∃ ws, calcWidths = some ws ∧ ws.sum ≤ max_width`.
+
+Every column free to wrap (no `width`, `min_width`, `no_wrap`), cells measuring `0 ≤ max ≤ offered width` (what
+`Measurement.get` guarantees): the table is never wider than the width on offer — natural widths that fit are
+kept (padded at most up to `max_width`), wider ones are collapsed to exactly `max_width` and the re-measure
+(`maximum or 1`) can only shrink a column that still has at least one cell. -/
+theorem width_fits_partial (fl : Flags) (t : Table) (maxWidth : Int) (hnr : t.NoRatio) (hfree : t.AllFree)
+    (hne : t.columns ≠ []) (hnw : ∀ c ∈ t.columns, c.noWrap = false) (hmw : (t.columns.length : Int) ≤ maxWidth)
+    (hkeep : ∀ ws0, t.firstWidths maxWidth = some ws0 → ∀ w ∈ collapseWidths ws0 t.wrapable maxWidth, 1 ≤ w) :
+    ∃ ws, t.calcWidths fl maxWidth = some ws ∧ ws.sum ≤ maxWidth ∧ ws.length = t.columns.length ∧ ∀ w ∈ ws, 1 ≤ w := by
+  obtain ⟨ws0, h0, hl, hp⟩ := firstWidths_free t hnr hfree maxWidth
+  have hwrap : ∀ c ∈ t.columns, c.width = none ∧ c.noWrap = false := by
+    intro c hc
+    obtain ⟨i, hi, rfl⟩ := List.getElem_of_mem hc
+    have : (t.columns[i], i) ∈ t.indexed := by
+      unfold Table.indexed; exact List.mem_zipIdx_iff_getElem?.2 (by simp [hi])
+    exact ⟨(hfree _ this).1, hnw _ (List.getElem_mem _)⟩
+  have hne0 : ws0 ≠ [] := by
+    intro h; rw [h] at hl; simp at hl
+    exact hne (List.eq_nil_of_length_eq_zero hl.symm)
+  have hge1 : ∀ (a b : List Int), (∀ p ∈ a.zip b, p.1 ≤ p.2) → a.length = b.length → (∀ w ∈ a, 1 ≤ w) → ∀ w ∈ b, 1 ≤ w := by
+    intro a b hz hlen ha w hw
+    obtain ⟨i, hi, rfl⟩ := List.getElem_of_mem hw
+    have hia : i < a.length := by omega
+    have := hz (a[i], b[i]) (by rw [List.mem_iff_getElem]; exact ⟨i, by simp; omega, by simp⟩)
+    have := ha a[i] (List.getElem_mem _)
+    simp only at *; omega
+  unfold Table.calcWidths
+  rw [h0]
+  by_cases hover : ws0.sum > maxWidth
+  · simp only [hover, if_true]
+    obtain ⟨hsw, hsum, hrl, _⟩ := shrinkWidths_all_wrappable t maxWidth ws0 hl (fun w hw => by have := hp w hw; omega)
+      (by omega) (by omega) hwrap
+    simp only [hsw]
+    obtain ⟨hml, hm1, hmle⟩ := remeasure_free t hfree _ hrl (hkeep ws0 h0)
+    have hmne : t.remeasure (collapseWidths ws0 t.wrapable maxWidth) ≠ [] := by
+      intro h; rw [h] at hml; simp at hml
+      rw [← hml] at hrl
+      exact hne (List.eq_nil_of_length_eq_zero hrl.symm)
+    obtain ⟨r, h1, h2, h3, h4⟩ := padWidths_spec fl t _ maxWidth maxWidth hmne hm1
+    have hs := sum_le_of_zip_le _ _ hml hmle
+    refine ⟨r, h1, ?_, by omega, hge1 _ _ h4 h2.symm hm1⟩
+    rw [h3]
+    have := padTarget_le fl t maxWidth
+    split <;> omega
+  · simp only [hover, if_false]
+    obtain ⟨r, h1, h2, h3, h4⟩ := padWidths_spec fl t ws0 ws0.sum maxWidth hne0 hp
+    refine ⟨r, h1, ?_, by omega, hge1 _ _ h4 h2.symm hp⟩
+    rw [h3]
+    have := padTarget_le fl t maxWidth
+    split <;> omega
 
 end RichModel.C07
